@@ -38,6 +38,9 @@ type opFunc func(args []string) (impl, oracle, known string)
 var registry = map[string]runner{}
 var ops = map[string]opFunc{}
 
+// huntHooks: per property, generators of directed regression cases for defects that were found and repaired.
+var huntHooks = map[string][]runner{}
+
 // H is the per-run context: PRNG, tier, output.
 type H struct {
 	Tier  string
@@ -342,6 +345,10 @@ func main() {
 	if !ok {
 		fmt.Fprintln(os.Stderr, "unknown property", os.Args[1])
 		os.Exit(2)
+	}
+	// regression cases of repaired defects (hunt_*.go), run first: minimised past failures are the corpus
+	for _, f := range huntHooks[os.Args[1]] {
+		f(h)
 	}
 	r(h)
 	if h.w != nil {
